@@ -87,7 +87,7 @@ def shards(tier, seed):
 
 
 def min_required(tier):
-    return {"client_vs_api_compared": 200, "stdout_values_checked": 20}
+    return {"client_vs_api_compared": 150, "stdout_values_checked": 20}
 
 
 def subsets(opts):
